@@ -42,6 +42,7 @@ def global_axioms():
         slen(EMPTY) == 0,
         z3.ForAll([x], z3.Not(smem(EMPTY, x)), patterns=[smem(EMPTY, x)]),
         z3.ForAll([s, i], z3.Implies(z3.And(0 <= i, i < slen(s)), smem(s, at(s, i))), patterns=[at(s, i)]),
+        z3.ForAll([s, x], z3.Implies(smem(s, x), slen(s) > 0), patterns=[smem(s, x)]),
     ]
 
 
@@ -145,7 +146,10 @@ def Distinct(s):
     """no duplicates, stated through an index function (one bound variable: friendlier to both
     E-matching and model finding than the two-variable disequality form)"""
     i = _v("di", IntS)
-    return z3.ForAll([i], z3.Implies(z3.And(0 <= i, i < slen(s)), _pos(s, at(s, i)) == i), patterns=[at(s, i)])
+    body = z3.Implies(z3.And(0 <= i, i < slen(s)), _pos(s, at(s, i)) == i)
+    if not _pattern_ok(s):
+        return z3.ForAll([i], body)
+    return z3.ForAll([i], body, patterns=[at(s, i)])
 
 
 _lit_cache = {}
